@@ -18,6 +18,13 @@ fn unhex(s: &str) -> Vec<u8> {
     v
 }
 
+fn hexs(b: &[u8]) -> String {
+    if b.is_empty() {
+        return "-".to_string();
+    }
+    b.iter().map(|x| format!("{:02x}", x)).collect()
+}
+
 fn main() {
     std::panic::set_hook(Box::new(|_| {}));
     let stdin = std::io::stdin();
@@ -50,6 +57,64 @@ fn main() {
                     Ok(true) => println!("OK"),
                     Ok(false) => println!("ERR"),
                     Err(_) => println!("PANIC"),
+                }
+            }
+            // wsmsg b|n <arrived> <eof 0|1> <hex client bytes> -> one recv (b) / recv_nonblocking (n) on a loopback connection whose peer has
+            //   delivered the first <arrived> bytes when the call starts (the rest follows 250 ms later; with eof=1 the peer then shuts its
+            //   side down, otherwise it stays silent), then the stream is dropped:
+            //   "OK <text 0|1> <hex payload>|ERR <error>|NONE|PANIC ; <hex of everything the server wrote>"
+            "wsmsg" => {
+                use std::io::{Read, Write};
+                let nonblocking = parts[1] == "n";
+                let arrived: usize = parts[2].parse().unwrap();
+                let eof = parts[3] == "1";
+                let data = unhex(parts[4]);
+                let listener = std::net::TcpListener::bind("127.0.0.1:0").unwrap();
+                let addr = listener.local_addr().unwrap();
+                let k = arrived.min(data.len());
+                let late = k < data.len();
+                let client = std::thread::spawn(move || {
+                    let mut c = std::net::TcpStream::connect(addr).unwrap();
+                    c.set_nodelay(true).ok();
+                    c.write_all(&data[..k]).ok();
+                    c.flush().ok();
+                    if late {
+                        std::thread::sleep(std::time::Duration::from_millis(250));
+                        c.write_all(&data[k..]).ok();
+                        c.flush().ok();
+                    }
+                    if eof {
+                        c.shutdown(std::net::Shutdown::Write).ok();
+                    }
+                    let mut out = Vec::new();
+                    c.set_read_timeout(Some(std::time::Duration::from_secs(5))).ok();
+                    c.read_to_end(&mut out).ok();
+                    out
+                });
+                let (server, _) = listener.accept().unwrap();
+                server.set_read_timeout(Some(std::time::Duration::from_secs(3))).ok();
+                std::thread::sleep(std::time::Duration::from_millis(if late || eof { 80 } else { 40 }));
+                let r = std::panic::catch_unwind(std::panic::AssertUnwindSafe(|| {
+                    let mut ws = humphrey_ws::stream::WebsocketStream::new(humphrey::stream::Stream::Tcp(server));
+                    let s = if nonblocking {
+                        match ws.recv_nonblocking() {
+                            humphrey_ws::restion::Restion::Ok(m) => format!("OK {} {}", m.is_text() as u8, hexs(m.bytes())),
+                            humphrey_ws::restion::Restion::Err(e) => format!("ERR {:?}", e),
+                            humphrey_ws::restion::Restion::None => "NONE".to_string(),
+                        }
+                    } else {
+                        match ws.recv() {
+                            Ok(m) => format!("OK {} {}", m.is_text() as u8, hexs(m.bytes())),
+                            Err(e) => format!("ERR {:?}", e),
+                        }
+                    };
+                    drop(ws);
+                    s
+                }));
+                let out = client.join().unwrap();
+                match r {
+                    Ok(s) => println!("{} ; {}", s, hexs(&out)),
+                    Err(_) => println!("PANIC ; {}", hexs(&out)),
                 }
             }
             "sha1" => {
